@@ -82,10 +82,12 @@ def parseOut : String → Option PollOutcome
 def evFields : Ev → List String
   | .op o r => opFields o ++ [showRes r]
   | .runBegin => ["run"]
+  | .spinBegin => ["spin"]
   | .cb id => ["cb", toString id]
   | .cbEnd rc => ["end", toString rc]
   | .poll t adv fds out => ["poll", toString t, toString adv, showEntries fds, showOut out]
   | .ret rc => ["ret", toString rc]
+  | .spinRet rc => ["spinret", toString rc]
   | .fault => ["fault"]
 
 /-- one event = one token (`Proofs/EventsAns.lean`: `parseEv (showEv e) = some e`) -/
@@ -93,10 +95,12 @@ def showEv (e : Ev) : String := ":".intercalate (evFields e)
 
 def parseEvFields : List String → Option Ev
   | ["run"] => some .runBegin
+  | ["spin"] => some .spinBegin
   | ["fault"] => some .fault
   | ["cb", id] => do pure (.cb (← id.toNat?))
   | ["end", rc] => do pure (.cbEnd (← rc.toInt?))
   | ["ret", rc] => do pure (.ret (← rc.toInt?))
+  | ["spinret", rc] => do pure (.spinRet (← rc.toInt?))
   | ["poll", t, adv, fds, out] => do pure (.poll (← t.toInt?) (← adv.toNat?) (← parseEntries fds) (← parseOut out))
   | fields => match parseOpFields fields with
     | some (o, [r]) => do pure (.op o (← parseRes r))
@@ -126,6 +130,8 @@ def parseTop : List String → Option Top
   | ["pollintr", adv] => do pure (.pollAns (.eintr (← adv.toNat?)))
   | ["pollsig", adv] => do pure (.pollAns (.intr (← adv.toNat?)))
   | ["run"] => some .run
+  | ["spin"] => some .spin
+  | ["setdone"] => some (.api .done)
   | _ => none
 
 def showOpt : Option Nat → String | some n => toString n | none => "-"
